@@ -44,6 +44,9 @@ def model_cfg(mode, backup, nfiles, outexists, direct=False, dump=True):
                         invariants=INVS, view="view")
 
 
+STALE = b"STALE BACKUP OF AN EARLIER RUN\n"
+
+
 def new_text(old: str) -> str:
     from flowmark import reformat_text
     return reformat_text(old, width=WIDTH, semantic=False, cleanups=False)
@@ -51,6 +54,7 @@ def new_text(old: str) -> str:
 
 class Scenario:
     link = False
+    stale = False      # a backup file <name>.orig of an EARLIER run exists (other content) before this run starts
     outarg = None      # stdout-mode scenarios with an explicit -o that names the input file itself ("same", "dot", "abs", "alias")
 
     def __init__(self, sid, mode, backup, nfiles, outexists, badv, status, hist, fs):
@@ -66,7 +70,7 @@ class Scenario:
 
     def key(self):
         return dict(mode=self.mode, backup=self.backup, nfiles=self.nfiles, outexists=self.outexists, bad=self.bad,
-                    kind=self.kind, op=self.op, file=self.file, errno=self.errno, badkind=self.badkind, link=self.link, outarg=self.outarg)
+                    kind=self.kind, op=self.op, file=self.file, errno=self.errno, badkind=self.badkind, link=self.link, outarg=self.outarg, stale=self.stale)
 
 
 def materialise(sc: Scenario, new: str):
@@ -93,6 +97,8 @@ def materialise(sc: Scenario, new: str):
             else:
                 open(os.path.join(root, name), "wb").write(content)
         olds[f] = content
+        if sc.stale:
+            open(os.path.join(root, name + ".orig"), "wb").write(STALE)
     argv = ["-w", str(WIDTH)]
     stdin = None
     if sc.mode == "inplace":
@@ -138,6 +144,8 @@ def disk_state(root, names, olds, newb):
             return "Old"
         if b == newb:
             return "New"
+        if b == STALE:
+            return "Stale"
         return "Empty" if not b else "Partial"
     st = {"target": {}, "tmp": {}, "orig": {}}
     extra = []
@@ -281,6 +289,12 @@ def run(tier: str) -> int:
                 continue
             todo.append(c)
     chk.notes["model_scenarios"] = len(scenarios)
+    # a stale .orig of an earlier run + an input that cannot be read / formatted: the current file must stay as it is
+    for badkind in ("decode", "format"):
+        c = Scenario(0, "inplace", True, 1, True, [True], "done", [], {})
+        c.stale, c.badkind = True, badkind
+        c.kind, c.op, c.file = "generic", "stale .orig + bad input", 1
+        todo.append(c)
     for oa in ("same", "dot", "abs", "alias"):
         c = Scenario(0, "stdout", False, 1, True, [False], "done", [], {})
         c.outarg = oa
@@ -324,7 +338,7 @@ def run(tier: str) -> int:
         for f in range(1, sc.nfiles + 1):
             if not intact_py(sc, o["disk"], f):
                 chk.violation("TargetIntact(final disk state)", dict(meta, file=f))
-            if sc.bad[f - 1] and (o["disk"]["target"][f] != "Old" or o["disk"]["tmp"][f] != "Absent" or o["disk"]["orig"][f] != "Absent"):
+            if sc.bad[f - 1] and (o["disk"]["target"][f] != "Old" or o["disk"]["tmp"][f] != "Absent" or o["disk"]["orig"][f] != ("Stale" if sc.stale else "Absent")):
                 chk.violation("FailureAtomic(final disk state)", dict(meta, file=f))
             if sc.mode == "stdout" and (o["disk"]["target"][f] != "Old" or o["disk"]["tmp"][f] != "Absent" or o["disk"]["orig"][f] != "Absent"):
                 chk.violation("NoTouchWithoutInplace(final disk state)", dict(meta, file=f))
